@@ -6,6 +6,7 @@
 import GormModel.Model.Assoc
 import GormModel.Lemmas.Assoc
 import GormModel.Lemmas.AssocPoly        -- polymorphic relations over a shared target table: link = (owner type, owner id, target)
+import GormModel.Lemmas.AssocRef        -- referenced (non-primary) columns, argument records, zero-argument calls (regenerated sites)
 import GormModel.Lemmas.AssocFindings   -- kernel-checked witnesses of the listed findings + composite-key partial theorems
 namespace Gorm
 open Gorm.Assoc
@@ -1034,5 +1035,155 @@ example :
       ⟨[⟨1, 1, 5⟩, ⟨11, 1, 3⟩], 21, []⟩).rows = [⟨1, 1, 5⟩, ⟨11, 0, 1⟩, ⟨21, 0, 1⟩] ∧
     AssocPoly.OpOk ⟨⟨false, 1⟩, .append, false, [⟨1, [], [11, 0]⟩], []⟩ := by
   refine ⟨by decide, by decide, by decide, by decide⟩
+
+
+/-! ## Keys that reference NON-primary columns, the state of the argument records, zero-argument calls
+
+    `AssocRef.sitesOfFacts` resolves, from the facts regenerated out of association.go on every run, WHICH key of the
+    in-memory records each condition of Delete / Replace reads (primary key, referenced column, foreign-key value);
+    the theorems below hold for whatever the source says as long as it resolves to `AssocRef.sound`, which
+    `C12_ref_sites_sound` checks against the current tree. -/
+
+set_option maxRecDepth 16384 in
+/-- every key-reading site of Association.Delete / Replace hands over the field list under which the statement
+    addresses the records it is meant to address (operated owners / named targets / kept targets by the REFERENCED
+    column where a foreign key or join column is compared, by the primary key where the target's own key is compared) -/
+theorem C12_ref_sites_sound : AssocRef.sitesOfFacts = some AssocRef.sound := by
+  decide
+
+set_option maxRecDepth 16384 in
+theorem AssocRef.nestedOmits_true : AssocRef.nestedOmits = true := by decide
+
+set_option maxRecDepth 16384 in
+theorem AssocRef.appendGuarded_true : AssocRef.appendGuarded = true := by decide
+
+theorem AssocRef.sites_eq {S : AssocRef.Sites} (h : AssocRef.sitesOfFacts = some S) : S = AssocRef.sound :=
+  Option.some.inj (h.symm.trans C12_ref_sites_sound)
+
+/-- belongs-to whose foreign key references ANY column of the target (id ≠ code allowed): Delete removes exactly the
+    links operated owner -> named target, every other owner row keeps its foreign key -/
+theorem C12_ref_delete_belongs_to (S : AssocRef.Sites) (h : AssocRef.sitesOfFacts = some S)
+    (os named owners : List AssocRef.Rec) (oid tcode : Nat) :
+    AssocRef.BtLinked (AssocRef.btDelete S os named owners) oid tcode ↔
+      AssocRef.BtLinked owners oid tcode ∧ ¬ (oid ∈ os.map (·.id) ∧ tcode ∈ named.map (·.code)) := by
+  rw [AssocRef.sites_eq h]; exact AssocRef.bt_delete_links os named owners oid tcode
+
+/-- has-one / has-many whose foreign key references ANY column of the owner: Delete removes exactly the links -/
+theorem C12_ref_delete_has_many (S : AssocRef.Sites) (h : AssocRef.sitesOfFacts = some S)
+    (os named targets : List AssocRef.Rec) (ocode tid : Nat) :
+    AssocRef.FkLinked (AssocRef.fkDelete S os named targets) ocode tid ↔
+      AssocRef.FkLinked targets ocode tid ∧ ¬ (ocode ∈ os.map (·.code) ∧ tid ∈ named.map (·.id)) := by
+  rw [AssocRef.sites_eq h]; exact AssocRef.fk_delete_links os named targets ocode tid
+
+/-- … Replace's clean-up keeps the other owners' links and the operated owners' links to the kept records -/
+theorem C12_ref_replace_has_many (S : AssocRef.Sites) (h : AssocRef.sitesOfFacts = some S)
+    (os keep targets : List AssocRef.Rec) (ocode tid : Nat) :
+    AssocRef.FkLinked (AssocRef.fkReplaceCleanup S os keep targets) ocode tid ↔
+      AssocRef.FkLinked targets ocode tid ∧ (ocode ∈ os.map (·.code) → tid ∈ keep.map (·.id)) := by
+  rw [AssocRef.sites_eq h]; exact AssocRef.fk_replace_links os keep targets ocode tid
+
+/-- many2many whose join columns reference ANY columns of owner and target (`references:` / `joinReferences:`) -/
+theorem C12_ref_delete_many2many (S : AssocRef.Sites) (h : AssocRef.sitesOfFacts = some S)
+    (os named : List AssocRef.Rec) (joins : List (Nat × Nat)) (j : Nat × Nat) :
+    j ∈ AssocRef.m2mDelete S os named joins ↔
+      j ∈ joins ∧ ¬ (j.1 ∈ os.map (·.code) ∧ j.2 ∈ named.map (·.code)) := by
+  rw [AssocRef.sites_eq h]; exact AssocRef.m2m_delete_links os named joins j
+
+theorem C12_ref_replace_many2many (S : AssocRef.Sites) (h : AssocRef.sitesOfFacts = some S)
+    (os keep : List AssocRef.Rec) (joins : List (Nat × Nat)) (j : Nat × Nat) :
+    j ∈ AssocRef.m2mReplaceCleanup S os keep joins ↔
+      j ∈ joins ∧ (j.1 ∈ os.map (·.code) → keep ≠ [] ∧ j.2 ∈ keep.map (·.code)) := by
+  rw [AssocRef.sites_eq h]; exact AssocRef.m2m_replace_links os keep joins j
+
+/-- the in-memory clean-up of Delete compares PRIMARY keys on both sides -/
+theorem C12_ref_delete_memory (S : AssocRef.Sites) (h : AssocRef.sitesOfFacts = some S)
+    (field named : List AssocRef.Rec) (e : AssocRef.Rec) :
+    e ∈ AssocRef.cleanMem S field named ↔ e ∈ field ∧ e.id ∉ named.map (·.id) := by
+  rw [AssocRef.sites_eq h]; exact AssocRef.clean_mem field named e
+
+/-- the distinction matters: reading the named targets of a belongs-to Delete by their PRIMARY key leaves the link of
+    owner 1 to target (id 3, code 7) in place (the call matches nothing), and addressing has-many owners by their primary
+    key instead of the referenced column unlinks nothing either -/
+theorem C12_ref_primary_key_counterexample :
+    AssocRef.BtLinked (AssocRef.btDelete { AssocRef.sound with btDelNamed := .pk } [⟨1, 5, 7⟩] [⟨3, 7, 0⟩] [⟨1, 5, 7⟩]) 1 7 ∧
+    ¬ AssocRef.BtLinked (AssocRef.btDelete AssocRef.sound [⟨1, 5, 7⟩] [⟨3, 7, 0⟩] [⟨1, 5, 7⟩]) 1 7 ∧
+    AssocRef.fkDelete { AssocRef.sound with fkDelOwner := .pk } [⟨1, 5, 0⟩] [⟨3, 7, 5⟩] [⟨3, 7, 5⟩] = [⟨3, 7, 5⟩] ∧
+    AssocRef.fkDelete AssocRef.sound [⟨1, 5, 0⟩] [⟨3, 7, 5⟩] [⟨3, 7, 5⟩] = [⟨3, 7, 0⟩] := by
+  refine ⟨⟨by decide, ⟨1, 5, 7⟩, by decide, rfl, rfl⟩, ?_, by decide, by decide⟩
+  rintro ⟨_, x, hx, _, hfk⟩
+  simp [AssocRef.btDelete, AssocRef.sound, AssocRef.keys, AssocRef.Rec.key] at hx
+  subst hx
+  simp at hfk
+
+/-- ARGUMENT records: the nested upsert of association mode omits the arguments' own associations (regenerated from
+    callbacks/associations.go saveAssociations), hence every argument - fresh, key-only, loaded with a stale foreign key,
+    loaded with a preloaded back-reference to its previous owner - is linked to the operated owner, and its own
+    in-memory foreign-key field says so afterwards -/
+theorem C12_argument_links_owner (o : Nat) (args : List AssocRef.ArgRec) :
+    AssocRef.nestedOmits = true ∧
+    AssocRef.nestedLinks AssocRef.nestedOmits o args = args.map (fun a => (o, a.key)) ∧
+    ∀ a ∈ args, (a.saved AssocRef.nestedOmits o).fkField = o := by
+  have h : AssocRef.nestedOmits = true := AssocRef.nestedOmits_true
+  rw [h]
+  exact ⟨rfl, AssocRef.nested_links_owner o args, fun a _ => AssocRef.nested_saved_fk o a⟩
+
+theorem C12_argument_state_irrelevant (o : Nat) (a b : AssocRef.ArgRec) (h : a.key = b.key) :
+    AssocRef.nestedLinks AssocRef.nestedOmits o [a] = AssocRef.nestedLinks AssocRef.nestedOmits o [b] := by
+  have hn : AssocRef.nestedOmits = true := AssocRef.nestedOmits_true
+  rw [hn]; exact AssocRef.nested_independent_of_argument_state o a b h
+
+/-- … and without that branch a member loaded with Preload("Manager") goes back to its old manager -/
+theorem C12_argument_back_reference_counterexample :
+    AssocRef.nestedLinks false 2 [{ key := 3, fkField := 1, back := some 1 }] = [(1, 3)] ∧
+    AssocRef.nestedLinks true 2 [{ key := 3, fkField := 1, back := some 1 }] = [(2, 3)] :=
+  AssocRef.nested_without_omit_counterexample
+
+/-- ZERO-argument calls.  The dispatch of association.go with the guard of Append as regenerated from the source is the
+    modelled `step`; Append that names no target changes NOTHING (links, targets, in-memory fields, statements), for
+    every relation kind, scoped and Unscoped, single record and slice of records -/
+theorem C12_append_nothing (r : Rel) (os : List Nat) (uns : Bool) (s : St) :
+    AssocRef.call AssocRef.appendGuarded r os ⟨.append, uns, []⟩ s = s := by
+  have h : AssocRef.appendGuarded = true := AssocRef.appendGuarded_true
+  rw [h, AssocRef.call_guarded]; exact AssocRef.append_nothing r os uns s
+
+theorem C12_dispatch_is_step (r : Rel) (os : List Nat) (op : Op) (s : St) :
+    AssocRef.call AssocRef.appendGuarded r os op s = step r os op s := by
+  have h : AssocRef.appendGuarded = true := AssocRef.appendGuarded_true
+  rw [h]; exact AssocRef.call_guarded r os op s
+
+/-- Replace that names no target is Clear -/
+theorem C12_replace_nothing_is_clear (r : Rel) (os : List Nat) (uns : Bool) (s : St) :
+    step r os ⟨.replace, uns, []⟩ s = step r os ⟨.clear, uns, []⟩ s :=
+  AssocRef.replace_nothing_is_clear r os uns s
+
+/-- a scoped Delete that names no target removes nothing and touches no in-memory field -/
+theorem C12_delete_nothing (r : Rel) (os : List Nat) (s : St) (he : s.err = false) :
+    let s' := step r os ⟨.delete, false, [[]]⟩ s
+    s'.links = s.links ∧ s'.targets = s.targets ∧ s'.mem = s.mem ∧ s'.memFk = s.memFk :=
+  AssocRef.delete_nothing r os s he
+
+/-- the guard matters: delegating a zero-argument Append of a has-one to Replace() clears the link -/
+theorem C12_append_unguarded_counterexample :
+    let s : St := { links := [(1, 14)], targets := [14], next := 21, mem := fun o => if o = 1 then [14] else [],
+                    memFk := fun _ => 0 }
+    (AssocRef.call false ⟨.fk, true⟩ [1] ⟨.append, false, []⟩ s).links = [] ∧
+    (AssocRef.call true ⟨.fk, true⟩ [1] ⟨.append, false, []⟩ s).links = [(1, 14)] :=
+  AssocRef.append_unguarded_counterexample
+
+/-- F12g (listed finding): has-one `Replace([]T{})` - ONE argument that is an empty slice - through a record that holds
+    its link in memory: the link is kept, although Replace() without argument and the same call on a has-many clear.
+    (The refinement theorems above demand a non-empty value list per argument: `OpOk`, `SliceOpOk*` - exactly the negation
+    of the pattern.) -/
+theorem C12_single_valued_empty_slice_counterexample :
+    let s : St := { links := [(1, 14)], targets := [14], next := 21, mem := fun o => if o = 1 then [14] else [],
+                    memFk := fun _ => 0 }
+    (step ⟨.fk, true⟩ [1] ⟨.replace, false, [[]]⟩ s).links = [(1, 14)] ∧
+    (step ⟨.fk, true⟩ [1] ⟨.replace, false, []⟩ s).links = [] ∧
+    (step ⟨.fk, false⟩ [1] ⟨.replace, false, [[]]⟩ s).links = [] := by
+  decide
+
+/-- non-vacuity: a record whose referenced column differs from its primary key, named in a Delete -/
+example : AssocRef.btDelete AssocRef.sound [⟨1, 5, 7⟩] [⟨3, 7, 0⟩] [⟨1, 5, 7⟩, ⟨2, 6, 7⟩] = [⟨1, 5, 0⟩, ⟨2, 6, 7⟩] := by
+  decide
 
 end Gorm
